@@ -260,7 +260,8 @@ bool Executor::resolve(State &s, const Val &addr, unsigned size, bool write, con
     z3::expr a = toBV(addr);
     z3::model mdl(*ZC);
     z3::check_result r = check(s, ZC->bool_val(true), opt.branchTimeoutMs, &mdl);
-    if (r != z3::sat) { inconclusive = true; inconclusiveWhy = "solver unknown while resolving symbolic pointer at " + locOf(at); return false; }
+    if (r == z3::unsat) { pathsKilledAssume++; return false; }      // the path condition is infeasible (a branch taken on an undecided query): the path ends
+    if (r != z3::sat) { inconclusive = true; inconclusiveWhy = "solver unknown while resolving symbolic pointer at " + locOf(at) + " (" + std::to_string(s.pc.size()) + " constraints)"; return false; }
     uint64_t av = 0;
     z3::expr ev = mdl.eval(a, true);
     if (!ev.is_numeral_u64(av)) throw EngineError("cannot evaluate symbolic pointer");
@@ -293,7 +294,22 @@ bool Executor::resolve(State &s, const Val &addr, unsigned size, bool write, con
 
 static std::vector<uint64_t> candidateOffsets(Executor &ex, State &s, MemObj *o, const z3::expr &so, unsigned size) {
     std::vector<uint64_t> c;
-    if (o->size > ex.opt.maxSymObj) throw EngineError("symbolic offset into large object '" + o->name + "'");
+    if (o->size > ex.opt.maxSymObj) {
+        // too large to scan: enumerate the feasible offsets with the solver (bounded); typical case: an index that the path
+        // condition already pins to one or two values
+        z3::expr excl = ZC->bool_val(true);
+        for (;;) {
+            z3::model m(*ZC);
+            z3::check_result r = ex.check(s, excl, ex.opt.branchTimeoutMs, &m);
+            if (r == z3::unsat) break;
+            uint64_t x = 0;
+            if (r != z3::sat || !m.eval(so, true).is_numeral_u64(x) || c.size() >= 64)
+                throw EngineError("symbolic offset into large object '" + o->name + "' with more than 64 (or undecided) feasible values");
+            c.push_back(x);
+            excl = excl && (so != ZC->bv_val((uint64_t)x, 64));
+        }
+        return c;
+    }
     // alignment step: try `size`, fall back to 1
     unsigned step = size;
     bool unk = false;
